@@ -1,7 +1,10 @@
 \* C11 concurrent part: every interleaving of dispatch / duplex timeout / storage return of two commands.
-\* POOLED = FALSE: the code as it is (per-call CommandContext); TRUE = recycled contexts (rejected by TLC).
+\* POOLED = FALSE: the code as it is (per-call CommandContext); TRUE = recycled contexts (rejected by TLC:
+\* CommandsConc_show_pooled.cfg).  The two command ids are different or equal (SameIds); Dedupe: CommandsConc_show_dedupe.cfg.
 CONSTANTS
   Pooled = @@POOLED@@
+  Dedupe = FALSE
+  SameIds = {FALSE, TRUE}
   Whos = {"vB:create", "vB:check", "c1:check"}
   Emit = @@EMIT@@
 INIT Init
